@@ -245,7 +245,8 @@ def main():
     elif not by.get('confirmed') and not by.get('native_only'):
         rc = 3
 
-    functions = sorted({f for _, r in results for f in r.get('functions', [])})
+    # functions of /repo entered by the property's own harness bodies (the ride-along conformance twins touch the whole pipeline)
+    functions = sorted({f for i, r in results if not i['name'].startswith('conformance/') or pid == 'CONF' for f in r.get('functions', [])})
     samples = []
     for i, r in results[:]:
         if 'sample' in r and len(samples) < 6:
